@@ -62,6 +62,7 @@ type KnownFinding struct {
 type Worker struct {
 	ID     int
 	R      *gen.Rand
+	Pre    []string // strings parsed just before the current case as part of one history-dependent family (replay)
 	counts map[string]int64
 	evals  int64
 	// stall watchdog
